@@ -1,6 +1,6 @@
 """C13 — tokens and syntax tree are lossless over the source text."""
 from .. import roles
-from ..cfg import natural_loops
+from ..cfg import DefIndex, natural_loops
 from ..facts import KIND, callee, place_fields
 from ..rules.cursor import ParserModel
 from ..symex import PathLimit, SymEx, show
@@ -251,6 +251,57 @@ def rule_trivia(ck, facts, loss=True):
             ck.bad(R, "overwrite|%s|insert" % f.short, "pre-parser: the pending trivia is stored with `insert`, which replaces whatever trivia that token already had in the map (a token that received trailing trivia at an earlier line break loses it); the other sinks extend the entry" , f.where(t))
     ck.floor(R, "trivia_sinks", sinks, 3)
     ck.ok(R, "sinks|%s" % f.short, {"pending_local": pl, "append/extend sinks": sinks})
+    if loss:
+        rule_partition(ck, facts, f)
+
+
+def rule_partition(ck, facts, f):
+    """every token is either trivia (recorded as pending), or a syntax token (its index recorded), or the end marker"""
+    R = "C13.trivia"
+    loops = natural_loops(f)
+    ck.require(R, bool(loops), "anchor|preparse-loop", "the pre-parser's token loop was not found")
+    if not loops:
+        return
+    h, body = max(loops, key=lambda l: len(l[1]))
+    sx = SymEx(f, max_paths=400, max_steps=20000, facts=facts)
+    try:
+        paths = sx.run(h)
+    except PathLimit:
+        paths = sx.paths
+    kinds = facts.adt("mimium_lang::compiler::parser::token::TokenKind")
+    eof = None
+    if kinds:
+        for v in kinds["variants"]:
+            if v["n"] == "Eof":
+                eof = int(v["d"])
+    ck.require(R, eof is not None, "anchor|eof-kind", "TokenKind::Eof not found")
+    n_iter = 0
+    n_skip = 0
+    bad = None
+    for p in paths:
+        if p.end != "loop" or p.end_block != h:
+            continue
+        n_iter += 1
+        if any(e[0] == "call" and e[1].split("::")[-1] == "push" for e in p.events):
+            continue
+        n_skip += 1
+        pinned = False
+        for c, v, pos in p.conds:
+            txt = show(c)
+            if c[0] == "call" and c[1].split("::")[-1] in ("ne", "eq") and "Eof" in txt and ".kind" in txt:
+                is_ne = c[1].split("::")[-1] == "ne"
+                truth = (v != 0) if pos else None
+                if truth is not None and truth != is_ne:
+                    pinned = True
+            if c[0] == "disc" and ".kind" in txt and pos and v == eof:
+                pinned = True
+        if not pinned:
+            bad = [(show(c)[:80], v) for c, v, pos in p.conds][-2:]
+    ck.floor(R, "preparse_iteration_paths", n_iter, 8)
+    if bad is None:
+        ck.ok(R, "partition|%s" % f.short, {"iteration_paths": n_iter, "paths_recording_nothing": n_skip, "all_pinned_to": "TokenKind::Eof"})
+    else:
+        ck.bad(R, "partition|%s" % f.short, "pre-parser: an iteration records the token neither as trivia nor as a syntax token although its kind is not pinned to the end marker (last conditions: %s): such a token is in the token vector but no CST leaf and no trivia entry refers to it, and no error is reported for it" % bad, f.where())
 
 
 def rule_token_extent(ck, facts):
@@ -269,10 +320,65 @@ def rule_token_extent(ck, facts):
         except PathLimit:
             paths = sx.paths
         seen = set()
+        chains_seen = set()
+
+        def _norm_start(x):
+            # Token::end(&Token::new(k, s, l))  ==  s + l
+            y = x
+            while isinstance(y, tuple) and y and y[0] in ("ref", "deref"):
+                y = y[1]
+            if isinstance(y, tuple) and y and y[0] == "call" and y[1].endswith("token::Token::end") and y[2]:
+                z = y[2][0]
+                while isinstance(z, tuple) and z and z[0] in ("ref", "deref"):
+                    z = z[1]
+                if isinstance(z, tuple) and z and z[0] == "call" and z[1].endswith("token::Token::new"):
+                    return ("fld", ("bin", "add_ov", _norm_start(z[2][1]), z[2][2], "usize"), 0)
+            return x
+
         for p in paths:
             toks = [e for e in p.events if e[0] == "call" and e[1].endswith("token::Token::new")]
+            # a chain that re-tiles one token: the lengths must add up to that token's length.  Recognised argument:
+            # [a, 1, b] where a and b are the two components of one pair, and that pair is produced in this family as
+            # (len(head), len(tail)) of a split_once on a one-byte pattern
+            if len(toks) >= 2:
+                lens = [e[2][2] for e in toks]
+                sig = repr(lens)
+                if sig not in chains_seen:
+                    chains_seen.add(sig)
+                    ok = False
+                    if len(lens) == 3 and lens[1] == ("k", 1, "usize") and lens[0][0] == "fld" and lens[2][0] == "fld" and lens[0][1] == lens[2][1] and (lens[0][2], lens[2][2]) == (0, 1):
+                        fam = facts.family(roles.LANG, f.root)
+                        pair_ok = False
+                        for g in fam:
+                            for _, st in g.all_stmts():
+                                if st[KIND] == "a" and st[5][0] == "agg" and st[5][1][0] == "tuple" and len(st[5][2]) == 2:
+                                    dg = DefIndex(g)
+                                    rs = [dg.resolve(o) for o in st[5][2]]
+                                    if all(r[0] == "call" and (callee(r[1]) or "").split("::")[-1] == "len" and "str" in (callee(r[1]) or "") for r in rs):
+                                        # the two strings are components 0 and 1 of the closure's parameter
+                                        srcs = []
+                                        for r in rs:
+                                            a = r[1][5][0]
+                                            rr = dg.resolve(a)
+                                            for _k in range(4):  # through re-borrows `&*x`
+                                                if rr[0] == "rv" and rr[1][5][0] in ("ref", "raw"):
+                                                    a = ["cp", [rr[1][5][1][0], []]]
+                                                    rr = dg.resolve(a)
+                                                else:
+                                                    break
+                                            pl = rr[1] if rr[0] == "place" else (a[1] if a[0] in ("cp", "mv") else None)
+                                            idx = [e2[1] for e2 in (pl[1] if pl else []) if isinstance(e2, list) and e2[0] == "f"]
+                                            srcs.append(idx[-1] if idx else None)
+                                        if srcs == [0, 1]:
+                                            pair_ok = True
+                        splits = any((callee(t) or "").split("::")[-1] == "split_once" for g in fam for _, t in g.calls())
+                        ok = pair_ok and splits
+                    if ok:
+                        ck.ok(R, "chain-sum|%s" % f.short, {"lengths": [show(x)[-40:] for x in lens], "argument": "(len(head), 1, len(tail)) of split_once on a one-byte pattern"})
+                    else:
+                        ck.bad(R, "chain-sum|%s" % f.short, "%s replaces one token by a chain of %d tokens whose lengths (%s) are not the recognised re-tiling (len(head), 1, len(tail)) of a split of the token's text: they need not add up to the token's length, so a byte is left uncovered or covered twice" % (f.short, len(lens), "; ".join(show(x)[-60:] for x in lens)), f.where(toks[-1][3]))
             for i, e in enumerate(toks):
-                kind, start, ln = e[2][0], e[2][1], e[2][2]
+                kind, start, ln = e[2][0], _norm_start(e[2][1]), e[2][2]
                 sig = (repr(start), repr(ln))
                 if sig in seen:
                     continue
@@ -295,7 +401,7 @@ def rule_token_extent(ck, facts):
                         if start[0] == "fld" and "Token::start" in str(start[2]):
                             shape = "chain-head"
                     else:
-                        ps, pl_ = toks[i - 1][2][1], toks[i - 1][2][2]
+                        ps, pl_ = _norm_start(toks[i - 1][2][1]), toks[i - 1][2][2]
                         # start == prev_start + prev_len
                         want = ("fld", ("bin", "add_ov", ps, pl_, "usize"), 0)
                         if start == want:
@@ -316,5 +422,5 @@ def run(ck, facts, tier):
     rule_root(ck, facts, pm)
     rule_trivia(ck, facts)
     rule_token_extent(ck, facts)
-    ck.not_decided("the tokenizer's tiling of arbitrary text (chumsky spans); head+1+tail == length in split_projection_float_tokens (a value argument)")
+    ck.not_decided("the tokenizer's tiling of arbitrary text (chumsky spans)")
     ck.not_decided("validity of GreenTreeBuilder markers at run time (start_node_at moves a suffix of children)")
